@@ -61,6 +61,10 @@ type resolver struct {
 	// submodules already merged into a module ("module submodule"), includes
 	// may repeat or be circular
 	included map[string]struct{}
+
+	// import statements of submodules naming a module that another import
+	// statement already brings in, they get the same loaded module
+	sameImport map[*Import][]*Import
 }
 
 func (r *resolver) module(y *Module) error {
@@ -105,6 +109,10 @@ func (r *resolver) module(y *Module) error {
 				if err = r.module(i.module); err != nil {
 					return err
 				}
+			}
+
+			for _, same := range r.sameImport[i] {
+				same.module = i.module
 			}
 
 			// imports were originally added by module name, but now that we know the
@@ -264,7 +272,14 @@ func (r *resolver) copyOverSubmoduleData(main *Module, sub *Module) error {
 		main.groupings[g.ident] = g
 	}
 	for _, i := range sub.imports {
-		main.imports[i.moduleName] = i
+		if first, exists := main.imports[i.moduleName]; exists && first != i {
+			if r.sameImport == nil {
+				r.sameImport = make(map[*Import][]*Import)
+			}
+			r.sameImport[first] = append(r.sameImport[first], i)
+		} else {
+			main.imports[i.moduleName] = i
+		}
 	}
 	main.extensions = append(main.extensions, sub.extensions...)
 	main.augments = append(main.augments, sub.augments...)
